@@ -679,7 +679,6 @@ func genBody(r *vh.Rng, maxN int) (string, string) {
 	}
 }
 
-
 // ---------- body SHAPES (the dimension the codecs' internals are sensitive to) ----------
 
 // lengths on both sides of the codecs' internal thresholds: lz4 minMatch 4, the 5/12/13/14-byte end
